@@ -4,11 +4,16 @@ package c06
 
 import (
 	"errors"
+	"net"
+	"sync"
+	"time"
 	"sort"
 
 	"github.com/dfklegend/cell2/pomelonet/common/conn/codec"
 	"github.com/dfklegend/cell2/pomelonet/common/conn/message"
 	"github.com/dfklegend/cell2/pomelonet/common/conn/packet"
+	"github.com/dfklegend/cell2/pomelonet/constants"
+	"github.com/dfklegend/cell2/pomelonet/server/acceptor"
 	"github.com/dfklegend/cell2/utils/compression"
 
 	"verifh/hx"
@@ -162,10 +167,75 @@ func ExecOp(o hx.T) any {
 			out = append(out, hx.Pair{A: hx.Norm(ints([]byte(e.r))), B: int64(e.c)})
 		}
 		return hx.C("RDict", true, out)
+	case "OFramed":
+		return framed(o.List(0))
 	case "OSweep":
 		return hx.C("RSweep", sweep(int(o.Int(0))))
 	}
 	panic("c06: unknown op " + o.Name)
+}
+
+var (
+	accOnce sync.Once
+	acc     *acceptor.TCPAcceptor
+)
+
+// framed: a real TCP connection accepted by the real TCPAcceptor; the peer writes the
+// chunks one by one (with a pause, so that each chunk is its own segment / Read), then
+// closes; the server side calls GetNextMessage until it fails.
+func framed(chunks []any) any {
+	accOnce.Do(func() {
+		acc = acceptor.NewTCPAcceptor("127.0.0.1:0")
+		go acc.ListenAndServe()
+		for i := 0; i < 2000 && acc.GetAddr() == ""; i++ {
+			time.Sleep(time.Millisecond)
+		}
+	})
+	c, err := net.Dial("tcp", acc.GetAddr())
+	if err != nil {
+		panic("c06: dial: " + err.Error())
+	}
+	if tc, ok := c.(*net.TCPConn); ok {
+		tc.SetNoDelay(true)
+	}
+	pc := <-acc.GetConnChan()
+	go func() {
+		for _, ch := range chunks {
+			b := exact(hx.Ints(ch))
+			if len(b) > 0 {
+				c.Write(b)
+				time.Sleep(3 * time.Millisecond)
+			}
+		}
+		c.Close()
+	}()
+	return guard(func() any {
+		ms := []any{}
+		for {
+			pc.SetReadDeadline(time.Now().Add(3 * time.Second))
+			b, err := pc.GetNextMessage()
+			if err != nil {
+				pc.Close()
+				var end any
+				switch {
+				case errors.Is(err, constants.ErrConnectionClosed):
+					end = "FClosed"
+				case errors.Is(err, constants.ErrReceivedMsgSmallerThanExpected):
+					end = "FShortBody"
+				case errors.Is(err, packet.ErrInvalidPomeloHeader):
+					end = hx.C("FBad", "EPktHeader")
+				case errors.Is(err, packet.ErrWrongPomeloPacketType):
+					end = hx.C("FBad", "EPktType")
+				case errors.Is(err, codec.ErrPacketSizeExcced):
+					end = hx.C("FBad", "EPktSize")
+				default:
+					end = "FFuel" // timeout or an error the model does not know
+				}
+				return hx.C("RFrames", ms, end)
+			}
+			ms = append(ms, hx.Norm(ints(b)))
+		}
+	})
 }
 
 // sweep feeds every byte string of length <= k to the three decoders and counts panics.
@@ -421,7 +491,7 @@ func emit(cfg *hx.Config, kind string, ops []hx.T, tags map[string]bool) {
 	nt := false
 	for i, o := range ops {
 		obs[i] = ExecOp(o)
-		if t, ok := obs[i].(hx.T); ok && (t.Name == "RMsg" || t.Name == "RBytes" || t.Name == "RPkts" || t.Name == "RHdr" || t.Name == "RDict") {
+		if t, ok := obs[i].(hx.T); ok && (t.Name == "RMsg" || t.Name == "RBytes" || t.Name == "RPkts" || t.Name == "RHdr" || t.Name == "RDict" || t.Name == "RFrames") {
 			nt = true
 		}
 	}
@@ -484,6 +554,38 @@ func Run(cfg *hx.Config) error {
 			es = append(es, hx.Pair{A: hx.Norm(ints([]byte(rt))), B: int64(r.Intn(4))})
 		}
 		emit(cfg, "dict", []hx.T{hx.C("OSetDict", es)}, map[string]bool{"dict": true})
+	}
+	// TCP framing: a packet stream cut at every offset of its first packets (incl. inside
+	// headers), and random cuts
+	nfr := 40
+	if cfg.Tier == "thorough" {
+		nfr = 400
+	}
+	for i := 0; i < nfr; i++ {
+		tags := map[string]bool{"framed": true}
+		st := pktStream(cfg, tags)
+		var chunks [][]byte
+		if i < 14 && len(st) > i {
+			chunks = [][]byte{st[:i], st[i:]}
+			if i >= 1 && i <= 3 {
+				tags["cut-inside-header"] = true
+			}
+		} else {
+			rest := st
+			for len(rest) > 0 && len(chunks) < 4 {
+				k := 1 + r.Intn(len(rest))
+				chunks = append(chunks, rest[:k])
+				rest = rest[k:]
+			}
+			if len(rest) > 0 {
+				chunks = append(chunks, rest)
+			}
+		}
+		cl := []any{}
+		for _, ch := range chunks {
+			cl = append(cl, hx.Norm(ints(ch)))
+		}
+		emit(cfg, "framed", []hx.T{hx.C("OFramed", cl)}, tags)
 	}
 	for i := 0; i < cfg.N; i++ {
 		tags := map[string]bool{}
